@@ -108,10 +108,17 @@ FilterOk(e) ==
     [] OTHER -> TRUE                                       \* incomplete / rejected input: outside the property's quantifier
 
 \* ---------------------------------------------------------------- C13
+\* "each carrying its type and the value decoded from the next field": the type description and the value.  Whether the value of a string
+\* field keeps the NUL terminator the field may end with is not stated (the code keeps it); name, unit and fixed-point data are not
+\* mentioned at all
+CutNul(f) == IF Len(f) > 0 /\ f[Len(f)] = 0 THEN SubSeq(f, 1, Len(f) - 1) ELSE f
+SigArgSame(a, b) == /\ a.kind = b.kind /\ a.w = b.w /\ a.cod = b.cod /\ a.vari = b.vari /\ a.trai = b.trai
+                    /\ a.val[1] = b.val[1]
+                    /\ IF b.val[1] = "str" THEN a.val[2] = b.val[2] \/ a.val[2] = CutNul(b.val[2]) ELSE a.val[2] = b.val[2]
 ConstructOk(e) == LET d == ConstructArgs(e.types, e.data, e.be)  r == e.res IN
                   CASE d.v = "any" -> r.v \in {"ok", "err"}
                     [] d.v = "err" -> r.v = "err"
-                    [] d.v = "ok"  -> r.v = "ok" /\ r.args = d.args
+                    [] d.v = "ok"  -> r.v = "ok" /\ Len(r.args) = Len(d.args) /\ \A i \in 1..Len(d.args) : SigArgSame(r.args[i], d.args[i])
 
 \* ---------------------------------------------------------------- C15 (arguments of a message value)
 ArgsOf(m) == IF m.p[1] = "v" THEN m.p[2] ELSE <<>>
